@@ -25,6 +25,7 @@ pub open spec fn grown(o: Nodes, n: Nodes) -> bool {
 }
 
 /// loop invariant of the walk: `cur` is the node reached by the parts consumed so far (`pre`); it may still be a dead leaf
+#[verifier::opaque]
 pub open spec fn add_inv(n1: Nodes, m: Nodes, root: ModuleNodeId, cur: ModuleNodeId, pre: Seq<Seq<char>>, fm: FileMap, cnt1: u32, cnt: u32) -> bool {
     &&& tree_wf_ex(m, root, Some(cur)) &&& m.contains_key(cur) &&& resolve(m, root, pre) == Some(cur)
     &&& files_wf(m, fm) &&& ids_wf(m, cnt) &&& grown(n1, m) &&& cnt1 <= cnt <= cnt1 + pre.len() &&& rooted(m, root)
@@ -77,6 +78,7 @@ pub proof fn lemma_add_step_existing(n1: Nodes, m: Nodes, root: ModuleNodeId, cu
     requires add_inv(n1, m, root, cur, pre, fm, cnt1, cnt), has_child(m, cur, k),
     ensures add_inv(n1, m, root, child(m, cur, k), pre.push(k@), fm, cnt1, cnt),
 {
+    reveal(add_inv);
     let c = child(m, cur, k);
     assert(m[cur].children@.dom().contains(k));
     assert(live(m[cur]));
@@ -96,6 +98,7 @@ pub proof fn lemma_add_step_new(n1: Nodes, m: Nodes, m2: Nodes, root: ModuleNode
         m2 == m.insert(cur, nd).insert(nid, nn),
     ensures add_inv(n1, m2, root, nid, pre.push(key@), fm, cnt1, (cnt + 1) as u32),
 {
+    reveal(add_inv);
     assert(!m.contains_key(nid));
     assert(nid != cur && nid != root);
     // child entries of m stay
@@ -202,6 +205,7 @@ pub proof fn lemma_add_final(n1: Nodes, m: Nodes, m2: Nodes, root: ModuleNodeId,
     ensures tree_wf(m2, root), rooted(m2, root), files_wf(m2, fm.insert(f, info)), ids_wf(m2, cnt), resolve(m2, root, parts) == Some(cur),
         lists(m2, cur, f), tree_added(n1, m2, cur, f),
 {
+    reveal(add_inv);
     let fm2 = fm.insert(f, info);
     assert forall|x: ModuleNodeId, name: String| has_child(m2, x, name) == has_child(m, x, name) && (has_child(m, x, name) ==> child(m2, x, name) == child(m, x, name)) by {}
     assert(nd.file_ids@[m[cur].file_ids@.len() as int] == f);
@@ -295,5 +299,27 @@ pub proof fn lemma_names_add(o: NameTable, n: NameTable, fm: FileMap, fuzzy: boo
         assert forall|k: String, g: FileId| n.contains_key(k) && #[trigger] n[k]@.contains(g) implies fm2.contains_key(g) by {
             assert(o.contains_key(k) && o[k]@.contains(g));
         }
+    }
+}
+
+/// start of the walk: at the root, nothing consumed
+pub proof fn lemma_add_inv_init(n1: Nodes, root: ModuleNodeId, fm: FileMap, nt: NameTable, cnt1: u32)
+    requires wf_parts(n1, root, fm, nt, cnt1),
+    ensures add_inv(n1, n1, root, root, Seq::<Seq<char>>::empty(), fm, cnt1, cnt1),
+{
+    reveal(add_inv);
+}
+
+/// what the code of the walk needs to know about the current node
+pub proof fn lemma_add_inv_facts(n1: Nodes, m: Nodes, root: ModuleNodeId, cur: ModuleNodeId, pre: Seq<Seq<char>>, fm: FileMap, cnt1: u32, cnt: u32)
+    requires add_inv(n1, m, root, cur, pre, fm, cnt1, cnt),
+    ensures m.contains_key(cur), texts_distinct(m[cur].children@), cnt1 <= cnt <= cnt1 + pre.len(),
+        forall|k: String| #[trigger] m[cur].children@.contains_key(k) ==> m.contains_key(m[cur].children@[k]),
+        forall|x: ModuleNodeId| #[trigger] m.contains_key(x) ==> x.id < cnt,
+{
+    reveal(add_inv);
+    lemma_texts_distinct(m, root, Some(cur), cur);
+    assert forall|k: String| #[trigger] m[cur].children@.contains_key(k) implies m.contains_key(m[cur].children@[k]) by {
+        assert(has_child(m, cur, k));
     }
 }
